@@ -14,7 +14,13 @@ construction from each rendering (tuple, A1 text, $ text, R1C1 text, relative
 R1C1 with an anchor object), printing back (.address, .coordinate,
 .abs_address, .quoted_address) and re-reading what was printed, `&`, `**`,
 multi-colon ranges, `in`, .rows/.cols/.resolve_range/.size,
-address_at_offset/inc_col/inc_row -- and through compiled formulas in real
+address_at_offset/inc_col/inc_row.  Every location is taken in every notation
+the spec gives it: whole columns / rows also as A:C / 1:3 / C[-1]:C[2]
+(operands of `&`, `**`, `in`, .size, the printed forms), ranges also by any
+two opposite corners in either order, relative R1C1 ranges whose corners wrap
+separately; the row / column generators are consumed in several schedules
+(nested, all outer first, last first, interleaved).  The same goes through
+compiled formulas in real
 workbooks (references to quoted sheets, CSE arrays on such sheets, the
 intersection and range operators, ROW/COLUMN/SUM of boundary references).
 The oracle is the value of the TLA+ definitions.
@@ -114,6 +120,7 @@ class Driver:
         self.skipped = {}
         self.failed = {}
         self.want = {}
+        self.bands_done = set()
 
     # -- bookkeeping ---------------------------------------------------------
     def call(self, fn, *a, **k):
@@ -122,11 +129,11 @@ class Driver:
         except Exception as exc:   # noqa  -- a raise is an observation here
             return exc
 
-    def fail(self, kind, desc, case):
+    def fail(self, kind, desc, case, shape=None):
         """record a discrepancy; one defect shows up on thousands of vectors,
         so only the first few of each (kind, shape of the wrong answer) are
         kept verbatim, all are counted"""
-        shape = (kind, desc.split('got ')[-1].split('(')[0][:30])
+        shape = (kind, desc.split('got ')[-1].split('(')[0][:30] if shape is None else shape)
         self.failed[shape] = self.failed.get(shape, 0) + 1
         if self.failed[shape] <= 3:
             self.v.violation(f'{kind}: {desc}', dict(case, kind=kind, nth=self.failed[shape]))
@@ -166,8 +173,25 @@ class Driver:
             return self.eu.AddressCell(rect, sheet=sheet)
         return self.eu.AddressRange(rect, sheet=sheet)
 
+    def shorts(self, rect, abs_=False):
+        """the short texts of a whole-column / whole-row location, each with the
+        corners pycel shows for it (the open side is 0)"""
+        c1, r1, c2, r2 = rect
+        d = '$' if abs_ else ''
+        out = []
+        if (r1, r2) == (1, MAX_ROW):
+            out.append((f'{d}{self.LET[c1]}:{d}{self.LET[c2]}', (c1, 0, c2, 0)))
+        if (c1, c2) == (1, MAX_COL):
+            out.append((f'{d}{r1}:{d}{r2}', (0, r1, 0, r2)))
+        return out
+
+    def coords(self, rect, abs_=False):
+        """every A1 spelling of the coordinate (Address.tla: Coords)"""
+        return [self.a1(rect, abs_)] + [t for t, _ in self.shorts(rect, abs_)]
+
     def is_loc(self, got, rect, sheet):
-        """got is the address object of location (sheet, rect)"""
+        """got is the address object of location (sheet, rect), in the two-corner
+        spelling or (whole columns / rows) in the short one"""
         eu = self.eu
         rect = tuple(rect)
         if isinstance(got, Exception) or not eu.is_address(got):
@@ -185,10 +209,24 @@ class Driver:
         coord, full, same = self.want[key]
         try:
             corners = (got.start.col_idx, got.start.row, got.end.col_idx, got.end.row)
-            return (corners == rect and got.sheet == sheet and got.coordinate == coord
-                    and got.address == full and got == same)
+            if (corners == rect and got.sheet == sheet and got.coordinate == coord
+                    and got.address == full and got == same):
+                return True
+            size = (rect[3] - rect[1] + 1, rect[2] - rect[0] + 1)
+            return any(
+                corners == shown and got.sheet == sheet and got.coordinate == text
+                and got.address == self.full_text(sheet, text) and tuple(got.size) == size
+                for text, shown in self.shorts(rect))
         except Exception:   # noqa
             return False
+
+    def loc_of(self, got):
+        """(sheet, rect) an address object denotes (open sides filled in)"""
+        if not self.eu.is_address(got):
+            return got           # #NULL!, #VALUE!
+        corners = (got.start.col_idx or 1, got.start.row or 1,
+                   got.end.col_idx or MAX_COL, got.end.row or MAX_ROW)
+        return got.sheet, corners
 
     def expect_loc(self, kind, got, rect, sheet, case):
         self.seen(kind, case)
@@ -293,6 +331,11 @@ class Driver:
                     self.expect_loc('range.parse', self.call(C, text), rrect, '', case)
                     self.expect_loc('range.parse', self.call(eu.AddressRange, text), rrect, '', case)
                     self.expect_loc('range.parse', self.call(C, text, sheet='S'), rrect, 'S', case)
+                # any two opposite corners, in either order
+                for text in map(T, rg['corners']):
+                    case = dict(text=text)
+                    self.expect_loc('range.corners', self.call(C, text), rrect, '', case)
+                    self.expect_loc('range.corners', self.call(C, text, sheet='S'), rrect, 'S', case)
                 self.expect_eq('range.boundaries', self.call(
                     lambda: eu.range_boundaries(ra1)[0]), rrect, dict(text=ra1))
                 self.expect_eq('range.boundaries', self.call(
@@ -312,13 +355,75 @@ class Driver:
                         lambda: R.address_at_offset(-1, -1)),
                         offmap[(-1, -1)] * 2, '', dict(tuple=rrect, row_inc=-1, col_inc=-1))
                 self.reprint(rrect, sh)
+            # whole columns / whole rows through the cell
+            for band in vec['bands']:
+                self.drive_band(band, sh)
+            # relative ranges anchored here, each corner wrapping on its own
+            an = Anchor(c, r)
+            for span in vec['relspans']:
+                text = T(span['t'])
+                self.expect_loc('range.relspan', self.call(C, text, cell=an), tuple(span['rect']),
+                                '', dict(text=text, anchor=(c, r)))
             # the same through the formula compiler (no workbook needed)
             self.formula_refs(rect, 'S', [abs_, a1, 'S!' + a1, "'S'!" + abs_])
 
-    def reprint(self, rect, sheet):
-        """print in the three forms and read back what was printed"""
+    def drive_band(self, band, sheet):
+        """a whole-column / whole-row range in its notations; what the object
+        made from the short text says about itself"""
         eu = self.eu
-        A = self.call(self.mk, rect, sheet)
+        C = eu.AddressRange.create
+        rect = tuple(band['rect'])
+        a1, abs_, rev = T(band['a1']), T(band['abs']), T(band['rev'])
+        long_, longabs = T(band['long']), T(band['longabs'])
+        if band['kind'] + rev in self.bands_done:
+            return
+        self.bands_done.add(band['kind'] + rev)
+        if a1 not in self.coords(rect) or abs_ not in self.coords(rect, True) \
+                or (long_, longabs) != (self.a1(rect), self.a1(rect, True)):
+            raise tlc.MachineryFailure(f'harness rendering differs from spec: {a1} {abs_} {long_}')
+        for text in (a1, abs_, rev, a1.lower(), long_, longabs):
+            case = dict(text=text)
+            self.expect_loc('band.parse', self.call(C, text), rect, '', case)
+            self.expect_loc('band.parse', self.call(eu.AddressRange, text), rect, '', case)
+            self.expect_loc('band.parse', self.call(C, text, sheet='S'), rect, 'S', case)
+        for rel in band['rel']:
+            text = T(rel['t'])
+            self.expect_loc('band.rel', self.call(C, text, cell=Anchor(rel['ac'], rel['ar'])),
+                            rect, '', dict(text=text, anchor=(rel['ac'], rel['ar'])))
+        B = self.call(C, a1)
+        if not self.is_loc(B, rect, ''):
+            return      # reported above
+        h, w = rect[3] - rect[1] + 1, rect[2] - rect[0] + 1
+        case = dict(text=a1)
+        self.expect_eq('band.attrs', self.call(
+            lambda: (tuple(B.size), B.is_range, B.is_unbounded_range)), ((h, w), True, True), case)
+        got = self.call(lambda: B.abs_coordinate)
+        self.seen('band.abs', case)
+        if got not in self.coords(rect, True):
+            self.fail('band.abs', f'abs_coordinate of {a1!r}: expected {abs_!r}, got {got!r}', case,
+                      shape=band['kind'])
+        # containment: cells on the rim inside, their neighbours outside
+        c1, r1, c2, r2 = rect
+        mid = (self.rnd.randrange(c1, c2 + 1), self.rnd.randrange(r1, r2 + 1))
+        inside = {(c1, r1), (c2, r2), (c1, r2), (c2, r1), mid}
+        outside = {(c1 - 1, r1), (c2 + 1, r2), (c1, r1 - 1), (c2, r2 + 1)}
+        for (pc, pr), flag in [(x, True) for x in sorted(inside)] + [
+                (x, False) for x in sorted(outside)
+                if 1 <= x[0] <= MAX_COL and 1 <= x[1] <= MAX_ROW]:
+            cell = self.mk((pc, pr, pc, pr))
+            self.expect_eq('band.contains', self.call(lambda: cell in B), flag,
+                           dict(a=a1, cell=cell.address))
+            self.expect_eq('band.contains', self.call(lambda: cell.address in B), flag,
+                           dict(a=a1, cell=cell.address))
+        # what it prints reads back as the same location
+        self.reprint(rect, sheet, self.call(C, a1, sheet=sheet))
+
+    def reprint(self, rect, sheet, A=None):
+        """print in the three forms and read back what was printed (A: the
+        object to print, default the one made from the tuple)"""
+        eu = self.eu
+        if A is None:
+            A = self.call(self.mk, rect, sheet)
         case = dict(tuple=rect, sheet=sheet)
         if isinstance(A, Exception):
             self.seen('print', case)
@@ -335,8 +440,11 @@ class Driver:
             if not sheet:
                 continue
             sp = self.call(eu.split_sheetname, text)
-            coord = self.a1(rect, form == 'abs_address')
-            self.expect_eq('print.split', sp, (sheet, coord), case)
+            self.seen('print.split', case)
+            if isinstance(sp, Exception) or tuple(sp[:1]) != (sheet,) or \
+                    sp[1] not in self.coords(rect, form == 'abs_address'):
+                coord = self.a1(rect, form == 'abs_address')
+                self.fail('print.split', f'expected {(sheet, coord)!r}, got {sp!r}', case)
 
     def formula_refs(self, rect, sheet, texts):
         """=<text> compiled by ExcelFormula on a cell of `sheet` reads rect"""
@@ -499,10 +607,13 @@ class Driver:
         C = eu.AddressRange.create
         objs = {}
 
-        def obj(rect, sheet):
-            key = (tuple(rect), sheet)
+        def obj(rect, sheet, text=None):
+            """the address object of a location: from the tuple, or (whole
+            columns / rows) from the short text"""
+            key = (tuple(rect), sheet, text)
             if key not in objs:
-                objs[key] = self.mk(rect, sheet)
+                objs[key] = self.mk(rect, sheet) if text is None else \
+                    C(self.full_text(sheet, text))
             return objs[key]
         # the sheet rule is exported once (with the unit pairs a = b)
         combos = next(vec['combos'] for vec in vecs if vec['combos'])
@@ -515,12 +626,40 @@ class Driver:
             a, b, inter, union = vec['a'], vec['b'], vec['inter'], vec['union']
             if n < 2:
                 self.v.sample(dict(m=vec['m'], a=a, b=b, inter=inter or '#NULL!', union=union))
+            for name, rect in (('short_a', a), ('short_b', b), ('short_i', inter), ('short_u', union)):
+                if sorted(map(T, vec[name])) != sorted(t for t, _ in self.shorts(tuple(rect or [0] * 4))):
+                    raise tlc.MachineryFailure(f'harness rendering differs from spec: {vec[name]}')
             for combo in combos:
                 sa, sb, ok, sh = T(combo['sa']), T(combo['sb']), combo['ok'], T(combo['sh'])
                 A, B = obj(a, sa), obj(b, sb)
                 case = dict(a=self.full(tuple(a), sa), b=self.full(tuple(b), sb))
                 self.op_expect('inter', self.call(lambda: A & B), inter, ok, sh, dict(case, op='&'))
                 self.op_expect('union', self.call(lambda: A ** B), union, ok, sh, dict(case, op='**'))
+                # whole columns / rows written the short way, on either side
+                for ta in [None] + sorted(map(T, vec['short_a'])):
+                    for tb in [None] + sorted(map(T, vec['short_b'])):
+                        if ta is None and tb is None:
+                            continue
+                        As, Bs = self.call(obj, a, sa, ta), self.call(obj, b, sb, tb)
+                        cs = dict(a=self.full_text(sa, ta or A.coordinate),
+                                  b=self.full_text(sb, tb or B.coordinate))
+                        if isinstance(As, Exception) or isinstance(Bs, Exception):
+                            self.seen('inter', dict(cs, op='&'))
+                            self.fail('inter', f'cannot construct: got {As!r} {Bs!r}', cs)
+                            continue
+                        self.op_expect('inter', self.call(lambda: As & Bs), inter, ok, sh,
+                                       dict(cs, op='&'))
+                        self.op_expect('union', self.call(lambda: As ** Bs), union, ok, sh,
+                                       dict(cs, op='**'))
+                        if sa == sb:
+                            self.op_expect('inter', self.call(lambda: As.address & Bs), inter, ok, sh,
+                                           dict(cs, op='text &'))
+                            self.op_expect('union', self.call(lambda: As ** Bs.address), union, ok,
+                                           sh, dict(cs, op='** text'))
+                            self.expect_eq('subset', self.call(
+                                lambda: (self.loc_of(As & Bs) == self.loc_of(As),
+                                         self.loc_of(As ** Bs) == self.loc_of(Bs))),
+                                (vec['sub'], vec['sub']), dict(cs, op='a&b is a, a**b is b'))
                 if sa == sb:
                     # text operands on either side, and the sub-rectangle tests
                     self.op_expect('inter', self.call(lambda: A & B.address), inter, ok, sh,
@@ -533,36 +672,44 @@ class Driver:
                                    dict(case, op='text **'))
                     self.expect_eq('subset', self.call(lambda: ((A & B) == A, (A ** B) == B)),
                                    (vec['sub'], vec['sub']), dict(case, op='a&b==a, a**b==b'))
-                    # the range operator written with colons (two single
-                    # cells in the wrong order are a corner pair that is
-                    # not normalised: outside the domain)
+                    # the range operator written with colons; the operands
+                    # may come in any order (B2:A1 is A1:B2)
                     text = f'{A.coordinate}:{B.coordinate}'
-                    if a[:2] == a[2:] and b[:2] == b[2:] and not (
-                            a[0] <= b[0] and a[1] <= b[1]):
-                        continue
                     self.expect_loc('multicolon', self.call(C, self.full_text(sa, text)),
                                     union, sa, dict(text=self.full_text(sa, text)))
                     if not sa:
                         self.expect_loc('multicolon', self.call(C, text, sheet='S'), union, 'S',
                                         dict(text=text, sheet='S'))
-            A = obj(a, 'S')
-            for pc, pr, flag in vec['cells_in_a']:
-                case = dict(a=A.address, cell=self.a1cell(pc, pr))
-                cell = obj((pc, pr, pc, pr), 'S')
-                self.expect_eq('contains', self.call(lambda: cell in A), flag, case)
-                self.expect_eq('contains', self.call(lambda: cell.address in A), flag, case)
             h, w = a[3] - a[1] + 1, a[2] - a[0] + 1
-            self.expect_eq('size', self.call(lambda: tuple(A.size)), (h, w), dict(a=A.address))
+            for ta in [None] + sorted(map(T, vec['short_a'])):
+                A = self.call(obj, a, 'S', ta)
+                if isinstance(A, Exception):
+                    continue        # reported above
+                for pc, pr, flag in vec['cells_in_a']:
+                    case = dict(a=A.address, cell=self.a1cell(pc, pr))
+                    cell = obj((pc, pr, pc, pr), 'S')
+                    self.expect_eq('contains', self.call(lambda: cell in A), flag, case)
+                    self.expect_eq('contains', self.call(lambda: cell.address in A), flag, case)
+                self.expect_eq('size', self.call(lambda: tuple(A.size)), (h, w), dict(a=A.address))
+            A = obj(a, 'S')
+            for text in map(T, vec['corners']):
+                self.expect_loc('range.corners', self.call(C, text, sheet='S'), a, 'S',
+                                dict(text=text, sheet='S'))
             if vec['rows']:
                 want = tuple(tuple(obj((c, r, c, r), 'S') for c, r in row) for row in vec['rows'])
                 wantc = tuple(tuple(obj((c, r, c, r), 'S') for c, r in col) for col in vec['cols'])
                 case = dict(a=A.address)
                 self.expect_eq('cells', self.call(lambda: tuple(A.resolve_range)), want, case)
                 if not isinstance(A, eu.AddressCell):
-                    self.expect_eq('cells', self.call(
-                        lambda: tuple(tuple(row) for row in A.rows)), want, dict(case, by='rows'))
-                    self.expect_eq('cells', self.call(
-                        lambda: tuple(tuple(col) for col in A.cols)), wantc, dict(case, by='cols'))
+                    # the rows / columns are generators of generators: whatever
+                    # the order they are consumed in, the same cells come out
+                    for how, consume in SCHEDULES:
+                        self.expect_eq('cells', self.call(lambda: consume(A.rows)), want,
+                                       dict(case, by='rows', consumed=how))
+                        self.expect_eq('cells', self.call(lambda: consume(A.cols)), wantc,
+                                       dict(case, by='cols', consumed=how))
+                    self.expect_eq('cells', self.call(lambda: tuple(zip(*A.rows))), wantc,
+                                   dict(case, by='rows', consumed='zip(*rows) is the columns'))
                 self.expect_eq('cells', self.call(
                     lambda: (len(want) * len(want[0]), all(x in A for row in want for x in row))),
                     (h * w, True), dict(case, by='count'))
@@ -590,12 +737,47 @@ class Driver:
             case = dict(a=ta, b=tb)
             want = total(vec['inter']) if vec['inter'] else self.eu.NULL_ERROR
             formulas.append((f'=SUM({ta} {tb})', want, 'wb.inter', case))
-            a, b = vec['a'], vec['b']
-            if a[:2] == a[2:] and b[:2] == b[2:] and not (a[0] <= b[0] and a[1] <= b[1]):
-                continue      # two single cells in the wrong order: outside the domain
             formulas.append((f'=SUM({ta}:{tb})', total(vec['union']), 'wb.union', case))
+            for text in map(T, vec['corners']):       # the range named by other corners
+                formulas.append((f'=SUM({text})', total(vec['a']), 'wb.corners', dict(text=text)))
         self.evaluate_all(wb, formulas, main='S')
         return total
+
+    def drive_band_formulas(self, vecs, limit):
+        """=SUM(a b) with whole columns / rows written the short way, on a sheet whose used area is small (pycel reads an unbounded
+        range as far as the used area goes): vectors of the sparse grid whose
+        operands are whole columns / rows or lie in the used area"""
+        cols = [c for c in sorted({x for vec in vecs for x in (vec['a'][0], vec['a'][2])})
+                if c < MAX_COL]
+        wb, main = self.workbook()
+        ws = wb.create_sheet('W')
+        bit = {}
+        for r in (1, 2):
+            for c in cols:
+                bit[(c, r)] = 1 << len(bit)
+                ws.cell(row=r, column=c).value = bit[(c, r)]
+
+        def total(rect):
+            return sum(x for (c, r), x in bit.items()
+                       if rect[0] <= c <= rect[2] and rect[1] <= r <= rect[3])
+
+        def usable(rect, short):
+            c1, r1, c2, r2 = rect
+            return ((c2 <= cols[-1] or (c1, c2) == (1, MAX_COL)) and
+                    (r2 <= 2 or (r1, r2) == (1, MAX_ROW)) and (short or r2 <= 2 and c2 <= cols[-1]))
+        picks = [vec for vec in vecs if (vec['short_a'] or vec['short_b'])
+                 and usable(vec['a'], vec['short_a']) and usable(vec['b'], vec['short_b'])
+                 and len(vec['short_a']) < 2 and len(vec['short_b']) < 2]
+        self.rnd.shuffle(picks)
+        formulas = []
+        for vec in picks[:limit]:
+            ta = T(vec['short_a'][0]) if vec['short_a'] else self.a1(tuple(vec['a']))
+            tb = T(vec['short_b'][0]) if vec['short_b'] else self.a1(tuple(vec['b']))
+            case = dict(a=ta, b=tb)
+            want = total(vec['inter']) if vec['inter'] else self.eu.NULL_ERROR
+            formulas.append((f'=SUM(W!{ta} W!{tb})', want, 'wb.band inter', case))
+        self.evaluate_all(wb, formulas)
+        return len(formulas)
 
     # -- "triple": associativity ---------------------------------------------------
     def drive_triples(self, triples, budget, n, keep=True):
@@ -660,6 +842,25 @@ class Driver:
         return count
 
 
+def _last_first(outer):
+    inner = list(outer)
+    return tuple(reversed([tuple(x) for x in reversed(inner)]))
+
+
+def _interleaved(outer):
+    inner = [iter(x) for x in outer]
+    cols = list(zip(*inner))              # one cell of each in turn
+    return tuple(zip(*cols)) if cols else tuple(() for _ in inner)
+
+
+# ways to consume a generator of generators
+SCHEDULES = (
+    ('nested', lambda outer: tuple(tuple(x) for x in outer)),
+    ('all outer first', lambda outer: tuple(tuple(x) for x in list(outer))),
+    ('last first', _last_first),
+    ('interleaved', _interleaved),
+)
+
 SHEET3 = [('', '', ''), ('S', 'S', 'S'), ('S', '', ''), ('', 'S', ''), ('', '', 'S'),
           ('S', 'S', ''), ('', 'S', 'S'), ('S', '', 'S')]
 
@@ -675,10 +876,11 @@ def not_judged(drv):
             out[name] = repr(fn())[:200]
         except Exception as exc:   # noqa
             out[name] = f'raises {type(exc).__name__}: {exc}'[:200]
-    obs("abs_address of 'A:A'", lambda: eu.AddressRange('A:A').abs_address)
-    obs("create(abs_address of 'A:A')",
-        lambda: eu.AddressRange.create(eu.AddressRange('A:A').abs_address))
-    obs("'B2:A1' (corners not normalised)", lambda: tuple(eu.AddressRange('B2:A1').size))
+    obs("rows of '1:1' (an unbounded range is not enumerated: resolve_range asserts)",
+        lambda: [[c.address for c in row][:3] for row in eu.AddressRange('1:1').rows][:2])
+    obs("'C[-2]' alone (a whole column in R1C1; the suite pins 'R' and 'C' as errors)",
+        lambda: eu.AddressRange.create('C[-2]', cell=Anchor(5, 5)))
+    obs("'A1:B' (a cell and a column)", lambda: eu.AddressRange.create('A1:B'))
     obs("'t!A1' in AddressRange('s!A1:B2')", lambda: 't!A1' in eu.AddressRange('s!A1:B2'))
     obs("'S!A1:S!B2' (unquoted sheet on both corners)", lambda: eu.AddressRange('S!A1:S!B2'))
 
@@ -738,6 +940,8 @@ def run(tier, seed):
     timed('pairs', drv.drive_pairs, by['pair'], True)
     timed('pair formulas', drv.drive_pair_formulas, by['pair'], 3)
     timed('big pairs', drv.drive_pairs, by['big'], False)
+    n_band = timed('band formulas', drv.drive_band_formulas, by['big'],
+                   60 if tier == 'quick' else 400)
     n3 = timed(
         'triples', drv.drive_triples,
         ((tuple(t['a']), tuple(t['b']), tuple(t['c']), tuple(t['inter']), tuple(t['union']))
@@ -772,6 +976,7 @@ def run(tier, seed):
                     coordinate_states=len(by['coord']), sheet_names=len(names),
                     big_pairs=len(by['big'])),
         vectors={m: len(x) for m, x in by.items()}, triples_3x3=n3, triples_4x4=n4,
+        band_formulas=n_band,
         checks_by_kind=drv.counts, skipped=drv.skipped,
         discrepancies_total=sum(drv.failed.values()),
         discrepancies_by_kind={f'{k} -> {g}': n for (k, g), n in sorted(drv.failed.items())},
